@@ -144,6 +144,14 @@ TEXT_RULE = ("cases are generated from one xoshiro256** state seeded by VERIF_SE
              "non-trivial when its oracle is applicable (spec not n/a) and distinct by its full case line")
 
 PROPS = {
+    "C08": {
+        "rule": "texts over {ASCII, 2-/3-/4-byte chars, CR, LF, CRLF}; per text: 3x IDX/SPECIDX (get_insertion_index: impl vs model "
+                "vs independent line-table spec LspPos) at valid and overshooting positions, POS (as_position), PROPRT (index -> "
+                "position -> index on every char boundary), PROPTOK (every token range fed back addresses the token), CHG/SPECCHG "
+                "(1-4 notifications of 1-3 ranged/full-text changes: server text vs model vs client semantics). " + TEXT_RULE,
+        "unproved_parts": ["position_roundtrip (index -> position -> index is the identity on character boundaries outside a CRLF pair) "
+                           "is evaluated (PROPRT, PROPTOK) on implementation and model, not yet a theorem"],
+    },
     "C06": {
         "rule": "G_text (weighted Unicode soup with quotes, CR, 0x, //, keyword prefixes, 2/3/4-byte chars) and "
                 "G_lexemes (concatenations of SPL lexemes with random separators); per text: LEX (impl vs model), "
